@@ -79,6 +79,23 @@ let handle (toks : string list) : string =
     (match k_derive_sha_code (List.map (receipt_rlp kh) rs) with
      | Some code when code = root -> "ok " ^ hex_of_bytes root ^ " " ^ bloom_hex (receipts_bloom kh rs)
      | _ -> "driver-error spec-code-mismatch")
+  | ["uncles"; hf5; ancs; cands; bh] ->
+    (* ANCS = hash/u1|u2 ,... (from the parent back; "_" uncles = none); CANDS = hash/parent ,... in the
+       order the map iteration is assumed to take; BH = hash of the block built.
+       -> picked=<hashes|none> bad=<n> verify=<ok|err> *)
+    let anc (s : string) = (match String.split_on_char '/' s with
+      | [h; u] -> { a_hash = bytes_of_hex h; a_uncles = (if u = "_" then [] else List.map bytes_of_hex (String.split_on_char '|' u)) }
+      | _ -> failwith "parse anc") in
+    let cnd (s : string) = (match String.split_on_char '/' s with
+      | [h; p] -> { c_hash = bytes_of_hex h; c_parent = bytes_of_hex p }
+      | _ -> failwith "parse cand") in
+    let al = List.map anc (list_of ancs) in
+    let (picked, bad) = select_uncles al (List.map cnd (list_of cands)) [] [] [] in
+    let parent = (match al with a :: _ -> a.a_hash | [] -> []) in
+    let v = (match verify_uncles_struct (hf5 = "1") al (bytes_of_hex bh) parent picked with
+      | None -> "ok" | Some VTooMany -> "too-many" | Some VDuplicate -> "duplicate" | Some VIsAncestor -> "ancestor" | Some VDangling -> "dangling") in
+    "picked=" ^ (if picked = [] then "none" else String.concat "," (List.map (fun c -> hex_of_bytes c.c_hash) picked))
+    ^ " bad=" ^ string_of_int (List.length bad) ^ " verify=" ^ v
   | ["stateroot"; l] ->
     (* accounts addr:nonce:balance:storageroot:codehash in the order sent; the root must not depend
        on the order in which they are fed to the trie: computed as sent and reversed *)
